@@ -4,6 +4,7 @@ import (
 	"math"
 
 	"github.com/hashicorp/raft"
+	"github.com/hashicorp/raft-wal/segment"
 
 	"harness/vrt"
 )
@@ -19,6 +20,7 @@ func HarnessSeq() {
 	maxData := vrt.Param("maxdata", 1)
 	rotmode := vrt.Param("rotmode", 0)
 	ops := vrt.Param("ops", 5)
+	c13 := vrt.Param("c13", 0)
 	e := newEnv(seg)
 	err := e.open()
 	vrt.Assert("C05.open-ok", err == nil)
@@ -106,6 +108,18 @@ func HarnessSeq() {
 			vrt.Quiesce()
 		}
 		checkAgainst("C05.step", e.L, m)
+		if c13 == 1 {
+			// C13: after the call (no reader pins old state) the directory is exactly the live segments
+			vrt.Quiesce()
+			live := 0
+			for _, si := range e.Meta.State.Segments {
+				vrt.Assert("C13.live-file-present", e.FS.Exists(segment.FileName(si)))
+				live++
+			}
+			vrt.Assert("C13.files-of-deleted-segments-gone", len(e.FS.Names()) == live)
+			vrt.Assert("C13.create-never-collides", e.FS.Collisions == 0)
+			vrt.Reach("c13-checked")
+		}
 	}
 	// one symbolic probe index covers GetLog for every index at once
 	probe("C05.end", e.L, m, vrt.U64("probe"))
